@@ -467,33 +467,33 @@ impl Duration {
     /// Decomposes a Duration in its sign, days, hours, minutes, seconds, ms, us, ns
     #[must_use]
     pub fn decompose(&self) -> (i8, u64, u64, u64, u64, u64, u64, u64) {
-        let mut me = *self;
-        let sign = me.signum();
-        me = me.abs();
-        let days = me.to_unit(Unit::Day).floor();
-        me -= days.days();
-        let hours = me.to_unit(Unit::Hour).floor();
-        me -= hours.hours();
-        let minutes = me.to_unit(Unit::Minute).floor();
-        me -= minutes.minutes();
-        let seconds = me.to_unit(Unit::Second).floor();
-        me -= seconds.seconds();
-        let milliseconds = me.to_unit(Unit::Millisecond).floor();
-        me -= milliseconds.milliseconds();
-        let microseconds = me.to_unit(Unit::Microsecond).floor();
-        me -= microseconds.microseconds();
-        let nanoseconds = me.to_unit(Unit::Nanosecond).round();
+        let sign = self.signum();
+        // The absolute value is exact: the magnitude of Duration::MIN is exactly Duration::MAX.
+        let me = self.abs();
+        // One century is exactly 36525 days, so everything can be counted on unsigned 64 bit integers:
+        // floating point arithmetic cannot resolve nanoseconds in durations of more than a few days.
+        let days = (me.centuries as u64) * DAYS_PER_CENTURY_U64 + me.nanoseconds / NANOSECONDS_PER_DAY;
+        let mut remainder = me.nanoseconds % NANOSECONDS_PER_DAY;
+        let hours = remainder / NANOSECONDS_PER_HOUR;
+        remainder %= NANOSECONDS_PER_HOUR;
+        let minutes = remainder / NANOSECONDS_PER_MINUTE;
+        remainder %= NANOSECONDS_PER_MINUTE;
+        let seconds = remainder / NANOSECONDS_PER_SECOND;
+        remainder %= NANOSECONDS_PER_SECOND;
+        let milliseconds = remainder / NANOSECONDS_PER_MILLISECOND;
+        remainder %= NANOSECONDS_PER_MILLISECOND;
+        let microseconds = remainder / NANOSECONDS_PER_MICROSECOND;
+        let nanoseconds = remainder % NANOSECONDS_PER_MICROSECOND;
 
-        // Everything should fit in the expected types now
         (
             sign,
-            days as u64,
-            hours as u64,
-            minutes as u64,
-            seconds as u64,
-            milliseconds as u64,
-            microseconds as u64,
-            nanoseconds as u64,
+            days,
+            hours,
+            minutes,
+            seconds,
+            milliseconds,
+            microseconds,
+            nanoseconds,
         )
     }
 
